@@ -1030,7 +1030,7 @@ func (db *TempPool) cleanByHeight(
 	switch {
 	case len(keys) < 1:
 		return 0, nil
-	case top-3 < base.GenesisHeight:
+	case top-base.Height(deep) < base.GenesisHeight:
 		return 0, nil
 	default:
 		for range make([]int, deep) {
